@@ -353,7 +353,7 @@ OBLIGATIONS = [
     Ob('gate', gate,
        sym=dict(t=R(0, 255), enc=B, kexp=B, authp=B, authc=B, strict=B, seqi=R(0, 4), chan=R(0, 1), sid=B),
        shards=dict(server=[True, False], enc=[False, True], strict=[False, True]),
-       timeout=200, thorough_timeout=600,
+       timeout=500, thorough_timeout=900,
        functions=[C.SSHConnection._recv_data, C.SSHConnection._recv_pkthdr, C.SSHConnection._recv_packet,
                   C.SSHConnection._finish_recv_packet],
        bounds='every message type 0..255 x role x {encrypted, kex in progress, auth in progress, authenticated, strict} x recv_seq in {0,1,5,2^32-2,2^32-1} x channel {registered, not}; single injected message'),
